@@ -266,3 +266,17 @@ def _ps_validate(shapes):
 
 PS_VALIDATE = [_ps_validate(()), _ps_validate(((1, 1),)), _ps_validate(((2, 2),)), _ps_validate(((1, 2), (2, 1))), _ps_validate(((1, 1), (1, 1), (3, 2)))]
 CONTRACTS += PS_VALIDATE
+
+
+# ---------------------------------------------------------------------------------------------- check_int (used for every mode / photon number of a post-selection rule)
+CHECK_INT = Contract(
+    target=f"{PS}:check_int",
+    types={"value": ["int", "real"]},
+    requires=[], modifies=[],
+    # whole numbers come back as ints with the same value; anything with a fractional part is refused
+    ensures={"same_whole_number": "result == value and isinstance(result, int)"},
+    raises={"ValueError": "not isinstance(value, int) and int(value) != value"},
+    props=["C05", "C07"],
+)
+CHECK_INT.no_callee = True
+CONTRACTS += [CHECK_INT]
